@@ -38,7 +38,7 @@ func init() {
 		Gen: func(r *Rng, tier string, emit func(Case)) {
 			nw, nr := 100, 100
 			if tier == "thorough" {
-				nw, nr = 3000, 3000
+				nw, nr = 500, 500
 			}
 			for i := 0; i < nw; i++ {
 				h := genHistory(r, "quick", true)
